@@ -80,7 +80,7 @@ Print Assumptions C25_generated_region_is_configured_partial.
 Theorem C25_config_line_ignored_refuted :
   exists (cfg : table) (k : kern) (en : env) (o : outer) (r : rect),
     cfg_ignored cfg k = true /\
-    gen_outer (add_all builtin_table cfg) 0 k = Some o /\
+    gen_outer (add_all ref_table cfg) 0 k = Some o /\
     spec_region cfg (e_goff en) k (e_sx en) (e_sy en) = Some r /\
     exec_outer ref_lib en o <> nest (k_id k) r.
 Proof. exact config_line_ignored_refuted_. Qed.
@@ -105,7 +105,7 @@ Print Assumptions C25_const_bounds_same_region_partial.
 Theorem C25_const_bounds_any_offset_refuted :
   exists (k : kern) (en : env) (o o' : outer),
     lib_contract ref_lib /\ attr_ok [] en (attr_of k) /\
-    gen_outer builtin_table 0 k = Some o /\ const_outer builtin_table 0 o = Some o' /\
+    gen_outer ref_table 0 k = Some o /\ const_outer ref_table 0 o = Some o' /\
     spec_region [] (e_goff en) k (e_sx en) (e_sy en) = Some (mkR 2 3 2 3) /\
     exec_outer ref_lib en o = nest (k_id k) (mkR 2 3 2 3) /\
     exec_outer ref_lib en o' = nest (k_id k) (mkR 1 3 1 3) /\
@@ -136,9 +136,9 @@ Theorem C25_fusion_attrs_only_refuted :
   exists (ks : list kern) (en : env) (s s1 s2 : sched),
     lib_contract ref_lib /\
     Forall (fun k => attr_ok [] en (attr_of k)) ks /\
-    gen_sched builtin_table 0 ks = Some s /\
-    apply_x builtin_table 0 s XConst = Some s1 /\
-    apply_x builtin_table 0 s1 (XFuseOuter 0) = Some s2 /\
+    gen_sched ref_table 0 ks = Some s /\
+    apply_x ref_table 0 s XConst = Some s1 /\
+    apply_x ref_table 0 s1 (XFuseOuter 0) = Some s2 /\
     at_pt 1 1 (exec ref_lib en s1) = [2%nat] /\ at_pt 1 1 (exec ref_lib en s2) = [].
 Proof. exact fusion_attrs_only_refuted_. Qed.
 Print Assumptions C25_fusion_attrs_only_refuted.
